@@ -60,6 +60,8 @@ class ConcHarness:
         if self.fault_set == "one":
             kinds = {"connect": ["ConnectError"], "start_tls": ["ConnectError"], "read": ["ReadError"], "write": ["WriteError"]}
         results: dict = {}
+        times: dict = {}
+        self._times = times
         w = AWorld(chooser, topo.router, faults=self.faults, cancels=self.cancels, cancel_styles=self.styles, early=self.early,
                    fault_kinds=kinds, horizon=self.horizon, extra_roots=[results])
         pool = scen.make_pool(ct, w.backend, "async", max_connections=self.max_connections,
@@ -120,6 +122,13 @@ class ConcHarness:
 
             def mk(kind=kind, url=url, tok=tok, name=name, ext=ext):
                 async def prog():
+                    times[name] = [w.loop.time(), None]
+                    try:
+                        return await body()
+                    finally:
+                        times[name][1] = w.loop.time()
+
+                async def body():
                     if kind == "req":
                         r = await pool.request("GET", url, extensions=dict(ext))
                         return (r.status, r.content)
@@ -247,6 +256,11 @@ class ConcHarness:
                     viol("C08", "collateral-failure", f"caller {name} failed with {exc_class(e)}: {e} although nothing was injected")
                 elif isinstance(e, httpcore.PoolTimeout) and not any(o.startswith("pt=") for o in opts):
                     viol("C16", "pool-timeout-without-timeout", f"caller {name} got PoolTimeout without a pool timeout")
+                elif isinstance(e, httpcore.PoolTimeout):
+                    pt = float(next(o for o in opts if o.startswith("pt="))[3:])
+                    t0, t1 = self._times[name]
+                    if abs((t1 - t0) - pt) > 1e-9:
+                        viol("C16", "pool-timeout-instant", f"caller {name} raised PoolTimeout after {t1 - t0}s in the queue, pool timeout is {pt}s")
         for c in topo.all_h1_conns():
             if c.reuse_violations:
                 viol("C01", "reuse", f"{c.reuse_violations[:2]}")
@@ -339,6 +353,13 @@ def scenarios(pid, tier):
             if not quick:
                 out.append(S(ct, ["early:a:v", "req:a"], max_connections=1, cancels=1, styles=["scope", "native"]))
                 out.append(S(ct, ["hold:a:v", "req:b"], max_connections=1, cancels=1, styles=["scope", "native"]))
+    if pid == "C16":
+        for ct in (["h11", "h2alpn"] if quick else ["h11", "h11tls", "h2alpn", "fwd", "tunnel", "socks"]):
+            out.append(S(ct, ["hold:a", "req:b:pt=5"], max_connections=1))
+            out.append(S(ct, ["hold:a", "req:b:pt=5", "req:b:pt=7:late"], max_connections=1))
+            out.append(S(ct, ["req:a:pt=0"], max_connections=1))
+            out.append(S(ct, ["hold:a", "req:a:pt=0"], max_connections=1))
+            out.append(S(ct, ["hold:a", "req:b:pt=5", "req:a:pt=3"], max_connections=2))
     if pid == "C14":
         for ct in ["h11", "h2alpn", "h2exp11", "h2pk"]:
             out.append(S(ct, ["post:a", "req:a"], max_connections=2, faults=1, fault_set="all"))
